@@ -16,6 +16,7 @@ CONSTANTS MaxRows,      \* rows + separators in the table
           MaxHdr,       \* AddHeaders calls
           MaxHist,      \* operations per history
           ReAdd,        \* TRUE: a row already in the table may be added once more
+          Variant,      \* "repaired" (the model) or "asfound" (Row.Add as found, for the selftest)
           ItemMode,     \* "plain": tiny strings; "mixed": also multi-line, empty, nil and size-lying items (C09)
           GenFile       \* scenario output ("" = none)
 
@@ -66,7 +67,9 @@ Init == /\ st = Apply(InitState, NewT, <<>>) /\ hist = <<NewT>>
 
 Next == /\ Len(hist) < MaxHist
         /\ \E op \in Ops :
-             /\ st' = Apply(st, op, ImplEvents(st, SlotsOfAll(st, op)))
+             /\ st' = IF Variant = "asfound" /\ op.op = "rowadd"
+                      THEN DoRowAddAsFound(st, op, ImplEvents(st, SlotsOfAll(st, op)))
+                      ELSE Apply(st, op, ImplEvents(st, SlotsOfAll(st, op)))
              /\ hist' = Append(hist, op)
 
 Spec == Init /\ [][Next]_vars
